@@ -164,8 +164,11 @@ Plan gen_conc(u64 seed) {
     Rng r(seed); Plan p; p.mode = "conc"; p.seed = seed;
     std::string font = gen_font(r);
     if (r.chance(1, 4)) { static const char *coll[] = {"AwamiNastaliq-Regular", "Awami_test", "Awami_compressed_test"}; font = coll[r.below(3)]; }   // collision fixing / kerning code runs only on these
+    const bool synth = r.chance(1, 8);     // a synthesised rule program (expressions reading features and attributes, constraints, pre-context) under the scheduler
+    if (synth) { static const char *bases[] = {"grtest1gr", "general", "PigLatinBenchmark_v3", "underflow", "Padauk", "charis_r_gr"}; font = bases[r.below(6)]; }
     Op mf; mf.kind = "make_face"; mf.s = font; mf.a = {0, 0, i64(6 | r.below(2)), 0, 0};
-    if (r.chance(1, 5)) {
+    if (synth) { Fault f; f.kind = "OVR_SILFPROG"; f.tag = "Silf"; synth_program(r.next(), f.a); mf.faults.push_back(f); }
+    else if (r.chance(1, 5)) {
         // a preloaded face built from damaged (but stable) bytes: if the constructor accepts it, it must be as immutable as a
         // healthy one - no fallback to on-demand loading of whatever could not be read during the preload
         const FontImage *fi = g_corpus.find(font); Fault f;
@@ -182,7 +185,7 @@ Plan gen_conc(u64 seed) {
     unsigned nfonts = r.below(3);
     for (unsigned i = 0; i < nfonts; ++i) { Op o; o.kind = "make_font"; o.a = {0, i64(16 * (6 + r.below(90)))}; p.ops.push_back(o); }
     unsigned nf = 2 + r.below(3);
-    std::vector<u32> shared_text = gen_text(r, font, 30, false);
+    std::vector<u32> shared_text = synth ? synth_text(r, 24) : gen_text(r, font, 30, false);
     for (unsigned f = 0; f < nf; ++f) {
         unsigned nj = g_tier ? 3 + r.below(10) : 2 + r.below(5);
         for (unsigned j = 0; j < nj; ++j) {
@@ -190,6 +193,7 @@ Plan gen_conc(u64 seed) {
             if (k < 70) {
                 o = gen_probe(r, font, g_tier ? 60 : 24, true); o.kind = "job_seg";
                 o.a[1] = nfonts && r.chance(2, 3) ? i64(r.below(nfonts)) : -1;
+                if (synth) o.text = synth_text(r, 24);
                 if (r.chance(1, 3)) o.text = shared_text;       // the same text in several workers: same glyphs, same cache lines
             }
             else if (k < 80) { o.kind = "label"; o.a = {0, i64(r.below(64)), i64(r.below(4)) - 1, i64(1 << r.below(3)), 0x0409}; }
